@@ -141,7 +141,7 @@ func c15Run(c *vk.Ctx) {
 		})
 	}
 	// --- failure scenarios ---
-	scenarios := []string{"junk", "junk-fin", "replay-client", "reflect-server", "bad-address-type", "dest-loopback", "dest-private", "dest-mapped-private", "connect-refused", "client-rst-mid-relay", "cipher-error-mid-relay", "target-rst-mid-answer", "client-fin-immediately", "empty-then-close"}
+	scenarios := []string{"junk", "junk-fin", "replay-client", "reflect-server", "bad-address-type", "dest-loopback", "dest-private", "dest-mapped-private", "connect-refused", "client-rst-mid-relay", "cipher-error-mid-relay", "target-rst-mid-answer", "client-fin-immediately", "empty-then-close", "client-rst-while-target-streams"}
 	for i := 0; i < c.N(90, 450); i++ {
 		sc := scenarios[i%len(scenarios)]
 		jobs = append(jobs, func(jr *rand.Rand) bool { return c15Scenario(c, jr, env, keys, sc) })
@@ -356,6 +356,19 @@ func c15Scenario(c *vk.Ctx, r *rand.Rand, env *relayEnv, keys []KeySpec, sc stri
 		cl2.Conn.CloseWrite()
 		watchClose(cl2, time.Now().Add(relayTimeout+c06B))
 		cl = cl2
+		if r.Intn(2) == 0 {
+			// presented once more: the outcome is still "reflected server salt", whatever a cache remembers
+			rig.WaitDone(cl2.Local, c06B)
+			cl3, err := DialSS(rig.Addr4(), randSrc4(r), k, nil)
+			if err != nil {
+				return true
+			}
+			defer cl3.Conn.Close()
+			cl3.WriteRaw(raw)
+			cl3.Conn.CloseWrite()
+			watchClose(cl3, time.Now().Add(relayTimeout+c06B))
+			cl = cl3
+		}
 		ex.statuses, ex.probe = []string{"ERR_REPLAY_SERVER"}, true
 	case "bad-address-type":
 		cl.WriteRaw(cl.Enc.Encode(append([]byte{byte(5 + r.Intn(200))}, randBytes(r, 30)...), nil))
@@ -430,6 +443,29 @@ func c15Scenario(c *vk.Ctx, r *rand.Rand, env *relayEnv, keys []KeySpec, sc stri
 		cl.ReadAllPlain(time.Now().Add(c06B))
 		cl.Conn.CloseWrite()
 		ex.statuses, ex.authed = []string{"ERR_RELAY_TARGET"}, true
+	case "client-rst-while-target-streams":
+		hub.On(ip.String(), func(tc *TargetConn) {
+			buf := make([]byte, 64)
+			tc.SetReadDeadline(time.Now().Add(c06B))
+			tc.Read(buf)
+			chunk := randBytes(rand.New(rand.NewSource(int64(caseN))), 32*1024)
+			for i := 0; i < 200; i++ { // ~6 MiB: more than the socket buffers hold
+				tc.SetWriteDeadline(time.Now().Add(c06B))
+				if _, err := tc.Write(chunk); err != nil {
+					break
+				}
+			}
+			tc.Close()
+		})
+		defer hub.Off(ip.String())
+		cl.WriteRaw(cl.Enc.Encode(append(sscodec.AddrIP(ip, hub.Port, false), 'g'), nil))
+		b := make([]byte, 10000)
+		cl.Conn.SetReadDeadline(time.Now().Add(c06B))
+		cl.Conn.Read(b)
+		time.Sleep(30 * time.Millisecond)
+		cl.Conn.SetLinger(0) // RST while the proxy is writing to us
+		cl.Conn.Close()
+		ex.statuses, ex.authed = []string{"ERR_RELAY_CLIENT", "ERR_RELAY_TARGET"}, true
 	case "client-fin-immediately":
 		hub.On(ip.String(), func(tc *TargetConn) {
 			buf := make([]byte, 4096)
